@@ -695,6 +695,7 @@ func TestVX_C17(t *testing.T) {
 				if sel.Kind == "sensor" && (fam == "1chip" || fam == "2chips") {
 					st.cliSensor(&c, exp)
 					rep.Count("cli-sensor-lookups", 1)
+					rep.Evaluations++
 				}
 				if pi == 0 {
 					first = out
@@ -717,9 +718,11 @@ func TestVX_C17(t *testing.T) {
 			rep.Evaluations++
 			nontrivial++
 		}
-		if trees == 3 || trees == 40 {
-			c := vxCase{Shapes: shapes, Order: ps[len(ps)-1], Sel: sels[(int(trees)*7)%len(sels)]}
-			rep.Sample(map[string]any{"case": c, "expected": vxRefBind(shapes, c.Sel), "observed": vxRunReal(&c).String()})
+		if trees == 3 || trees == 40 || trees == 200 {
+			pick := map[int64]vxSel{3: {Kind: "fan", Pattern: "prefix", By: "index", N: 1}, 40: {Kind: "sensor", Pattern: "upper", N: 1},
+				200: {Kind: "fan", Pattern: "full", By: "rpmChannel", N: 2, Pwm: 3}}[trees]
+			c := vxCase{Shapes: shapes, Order: ps[len(ps)-1], Sel: pick}
+			rep.Sample(map[string]any{"case": c, "platform": vxPattern(pick.Pattern), "expected": vxRefBind(shapes, pick), "observed": vxRunReal(&c).String()})
 		}
 	})
 	rep.AddDistinct(nontrivial) // (tree, order, entry) triples are enumerated without repetition
